@@ -70,6 +70,10 @@ func denote(v rel.Value, an *[]string) *model.V {
 			seen[d.Key()] = true
 			ms = append(ms, d)
 			n++
+			if n > 5000 {
+				*an = append(*an, fmt.Sprintf("enumeration of %T does not end (more than 5000 members seen)", v))
+				break
+			}
 			if !d.ContainsOpaque() && !x.Has(cur) {
 				*an = append(*an, fmt.Sprintf("set enumerates member %s but Has() denies it (%T)", d.Key(), v))
 			}
